@@ -278,8 +278,16 @@ func Gen(rng *rand.Rand, pf Profile) *Plan {
 		if cls == "zero" && nPh < 2 {
 			nPh = 2
 		}
+		if p.SlowWriter && !c09 && rng.Intn(5) != 0 {
+			// slow destination: prefer windows that hold many frames back and large stream-level grants
+			// released while the sender is still sending on the stream (batches of released frames)
+			cls = pick(rng, "tiny", "tiny", "one")
+		}
 		p.WinClass[e] = cls
 		p.Gran[e] = pick(rng, "1B", "small", "small", "frame", "frame", "huge")
+		if p.SlowWriter && !c09 {
+			p.Gran[e] = pick(rng, "frame", "huge", "huge")
+		}
 	}
 	// scenario "MAX_FRAME_SIZE lowered while larger DATA frames are queued in the relay": the receiver
 	// `resplit` announces a large MAX_FRAME_SIZE, the sender uses frames above 16 384, the receiver's
@@ -492,9 +500,12 @@ func Gen(rng *rand.Rand, pf Profile) *Plan {
 		if rng.Intn(6) == 0 {
 			n += 10 + rng.Intn(20)
 		}
+		if p.SlowWriter && !c09 {
+			n += 20 + rng.Intn(25) // batches larger than the relay's 15-slot output channel
+		}
 		// toward a connection-window-limited receiver: enough full-size frames to exhaust 65 535
 		// with a positive remainder (65 535 = 3 x 16 384 + 16 383)
-		heavy := p.WinClass[1-e] == "connlimited"
+		heavy := p.WinClass[1-e] == "connlimited" || (c09 && p.WinClass[1-e] == "default")
 		if heavy {
 			n = 4 + rng.Intn(8)
 			if budget < 262144/K {
@@ -515,6 +526,9 @@ func Gen(rng *rand.Rand, pf Profile) *Plan {
 			}
 			if big && rng.Intn(10) < 6 {
 				sz = 16385 + rng.Intn(16384)
+			}
+			if p.SlowWriter && !c09 && !big && !heavy && rng.Intn(10) < 8 {
+				sz = 1 + rng.Intn(120) // many small frames: long queues behind tiny windows
 			}
 			if p.BigFrames[e] && rng.Intn(6) == 0 {
 				sz = 16385 + rng.Intn(16000)
@@ -1015,13 +1029,16 @@ func Gen(rng *rand.Rand, pf Profile) *Plan {
 			if c09 {
 				ns = rng.Intn(9)
 			}
+			if p.SlowWriter && !c09 {
+				ns = 1 + rng.Intn(2) // gated grants only, late in the phase, so that long queues build up
+			}
 			if x == resplit && phi == 0 {
 				ns = 0 // the window stays shut until MAX_FRAME_SIZE has been lowered
 			}
 			var steps []Step
 			for i := 0; i < ns && n > 0; i++ {
 				st := Step{After: rng.Intn(n + 1), Act: "wu", Rep: 1}
-				if len(cand) > 0 && rng.Intn(3) != 0 {
+				if len(cand) > 0 && (rng.Intn(3) != 0 || (p.SlowWriter && !c09)) {
 					st.S = cand[rng.Intn(len(cand))]
 				}
 				switch p.Gran[x] {
@@ -1036,9 +1053,15 @@ func Gen(rng *rand.Rand, pf Profile) *Plan {
 				case "huge":
 					st.Inc = uint32(1<<20 + rng.Intn(1<<26))
 				}
-				if c09 && rng.Intn(4) == 0 {
+				if c09 && rng.Intn(3) == 0 {
 					// exactly the credit that is missing right now, stream-level or connection-level first
 					st.Act, st.SF = "exact", rng.Intn(2) == 0
+				}
+				if p.SlowWriter && !c09 {
+					st.After = n/2 + rng.Intn(n-n/2)
+					// hold the relay's writers at the hook gate, release the stream with the most DATA held
+					// back in one large grant, let the sender's next frames arrive, then open the gate
+					st.Act = "gated"
 				}
 				if p.WinClass[x] == "connlimited" {
 					st.S = 0 // connection-level credit only
